@@ -83,7 +83,12 @@ def make_scenarios(ctx, count):
         s = H.Scenario("e%d" % i, meta=dict(frames=frames, own=cfg["mac"], mtu=mtu0, rxseed=cfg["rxseed"], mtu_changes=mtu_changes))
         s.iface(0, **H.iface_kw(cfg)).glob(**G.global_kw(G.rand_global(rng, icon_size=100)))
         s.add("OPT txcap=3000")
-        s.frames(0, frames, rng if i % 2 else None, p_gap=0.25, base=True,
+        shadow = None
+        if i % 4 == 1:
+            cfg1, fr1 = G.shadow_iface(rng, cfg, max(5, len(frames) // 2))
+            s.iface(1, **H.iface_kw(cfg1))
+            shadow = (1, fr1)
+        s.frames(0, frames, rng if i % 2 else None, p_gap=0.25, base=True, shadow=shadow,
                  inserts={k: ["MTU 0 %d %d" % (v, cfg["rxseed"])] for k, v in mtu_changes.items()})
         scns.append(s)
     return scns
@@ -245,4 +250,5 @@ def run(ctx):
     rep.need("inflated_emits", c.get("inflated_emits", 0), 100)
     rep.need("emit_n:cap", c.get("emit_n:cap", 0), 5)
     rep.need("clock_gaps_between_frames", rep.counters.get("clock_gaps_between_frames", 0), 200)
+    rep.need("inputs_of_a_second_interface_in_between", rep.counters.get("inputs_of_a_second_interface_in_between", 0), 500)
     rep.need("mtu_changed_mid_history", c.get("mtu_changed_mid_history", 0), 20)
